@@ -65,7 +65,7 @@ Proof.
     assert (Hd : seg_d ex_s3 (ex_seg CNone 1001 (Some 5001) []) = 0) by (vm_compute; reflexivity).
     cbn [ex_seg r_payload r_seq_number r_control]. change (l_len (@nil Z)) with 0.
     split; [lia|]. split; [lia|].
-    intros _. split; [intros j Hj; lia|]. split; [intros Hn; lia | discriminate]. }
+    intros _. split; [intros j Hj _; lia|]. split; [intros Hn; lia | discriminate]. }
   set (g4 := ghost_step ex_cx g2 ex_s3 ex_ev4 ex_s4 (OReply None)) in *.
   assert (E4 : g_irs g4 = Some 1000 /\ g_consumed g4 = 0 /\ g_epoch g4 = 1%nat) by (vm_compute; repeat split).
   destruct E4 as (E4a & E4b & E4c).
@@ -78,8 +78,8 @@ Proof.
     intros _.
     assert (Hq : seg_q 0 ex_s4 (ex_seg CNone 1005 (Some 5001) [31; 38; 45]) = 4) by (vm_compute; reflexivity).
     first [rewrite Hq | (unfold ex_seg in Hq; rewrite Hq)].
-    split; [|split; [intros _ f Hf; inversion Hf; lia | discriminate]].
-    intros j Hj. assert (Hc : j = 0 \/ j = 1 \/ j = 2) by lia.
+    split; [|split; [intros _ _ f Hf; inversion Hf; lia | discriminate]].
+    intros j Hj _. assert (Hc : j = 0 \/ j = 1 \/ j = 2) by lia.
     destruct Hc as [-> | [-> | ->]]; vm_compute; reflexivity. }
   destruct R5 as (rep5 & t5 & R5 & _).
   eexists. split; [exact R5|]. cbn [ghost_step ex_ev5]. rewrite E4a.
